@@ -189,10 +189,16 @@ impl FinalityTracker {
                 assert_eq!(&hash, block_hash, "consensus safety violation");
                 FinalizationEvent::default()
             }
-            FinalizationStatus::Finalized(ref hash)
-            | FinalizationStatus::ImplicitlyFinalized(ref hash) => {
+            FinalizationStatus::Finalized(ref hash) => {
                 assert_eq!(hash, block_hash, "consensus safety violation");
                 // slot is already decided, keep it that way
+                self.status.insert(*slot, status);
+                FinalizationEvent::default()
+            }
+            FinalizationStatus::ImplicitlyFinalized(_) => {
+                // slot is already decided, keep it that way
+                // NOTE: a block other than the implicitly finalized one may be notarized in its
+                // slot (the finalized chain can continue from a notar-fallback certified block)
                 self.status.insert(*slot, status);
                 FinalizationEvent::default()
             }
@@ -342,10 +348,10 @@ impl FinalityTracker {
                     self.status.insert(slot, status);
                     return;
                 }
-                FinalizationStatus::Notarized(hash) => {
-                    assert_eq!(hash, &block_hash, "consensus safety violation");
-                }
-                FinalizationStatus::FinalPendingNotar => {}
+                // NOTE: the notarized block of the slot may be another one: a slot can hold a
+                // notarization certificate for one block and a notar-fallback certificate for
+                // another, and the finalized chain may continue from the latter
+                FinalizationStatus::Notarized(_) | FinalizationStatus::FinalPendingNotar => {}
                 FinalizationStatus::ImplicitlySkipped => {
                     panic!("consensus safety violation")
                 }
